@@ -2,7 +2,7 @@
 (***************************************************************************)
 (* Small-scope quantifier domains shared by the bounded instances.         *)
 (***************************************************************************)
-EXTENDS StrictRep
+EXTENDS VarBuilder
 
 EdgesOver(n, A, EL) == {Edge(l, s, t) : l \in EL, s \in SeqsUpTo(Range0(n), A), t \in SeqsUpTo(Range0(n), A)}
 \* all open hypergraphs with exactly n nodes
@@ -18,4 +18,12 @@ Hypergraphs(N, E, A, NL, EL) == UNION {HypergraphsN(n, E, A, NL, EL) : n \in 0 .
 FinFuns(S, T) == UNION {{FF(tbl, tgt) : tbl \in SeqsUpTo(Range0(tgt), S)} : tgt \in 0 .. T}
 FinFunsTo(S, tgt) == {FF(tbl, tgt) : tbl \in SeqsUpTo(Range0(tgt), S)}
 FinFunsFromTo(src, tgt) == {FF(tbl, tgt) : tbl \in SeqsOfLen(Range0(tgt), src)}
+
+\* lax diagrams: a plain diagram plus up to Q pending unification pairs
+LaxDiagramsN(n, E, A, I, Q, NL, EL) ==
+  {[nodes |-> w, edges |-> [i \in 1 .. Len(e) |-> e[i].l], adj |-> [i \in 1 .. Len(e) |-> HE(e[i].s, e[i].t)],
+    ql |-> [i \in 1 .. Len(q) |-> q[i][1]], qr |-> [i \in 1 .. Len(q) |-> q[i][2]], sources |-> s, targets |-> t] :
+      w \in SeqsOfLen(NL, n), e \in SeqsUpTo(EdgesOver(n, A, EL), E),
+      s \in SeqsUpTo(Range0(n), I), t \in SeqsUpTo(Range0(n), I), q \in SeqsUpTo(Range0(n) \X Range0(n), Q)}
+LaxDiagrams(N, E, A, I, Q, NL, EL) == UNION {LaxDiagramsN(n, E, A, I, Q, NL, EL) : n \in 0 .. N}
 =============================================================================
